@@ -51,7 +51,22 @@ for cut in range(total + 1):
     if err or [s for s, _ in got] != [0, 1, 2]:
         bad += 1; print("cut", cut, got, calls, err)
 print(f"baseline: single drop at each of {total+1} byte positions -> {bad} bad deliveries")
-for ch, nm in [(" ", "U+2028"), ("\x85", "U+0085"), (" ", "U+2029"), ("\x1c", "U+001C"), ("\x0b", "U+000B")]:
+for ch, nm in [("\u2028", "U+2028"), ("\x85", "U+0085"), ("\u2029", "U+2029"), ("\x1c", "U+001C"), ("\x0b", "U+000B")]:
     evs2 = [(0, Event(msg="a")), (1, Event(msg=f"line one{ch}line two")), (2, Event(msg="c"))]
     got, calls, err = asyncio.run(run(evs2, []))
     print(f"payload with {nm}: delivered sequences {[s for s,_ in got]} error={err}")
+
+# candidate repair on the server side: escape the three separators that JSON leaves raw
+_ESC = {0x85: "\\u0085", 0x2028: "\\u2028", 0x2029: "\\u2029"}
+_orig_frames = frames
+def frames(events, after):  # noqa: F811
+    out = ""
+    for seq, ev in events:
+        if seq > after:
+            payload = EventEnvelopeWithMetadata.from_event(ev).model_dump_json().translate(_ESC)
+            out += f"id: {seq}\ndata: {payload}\n\n"
+    return out
+for ch, nm in [("\u2028", "U+2028"), ("\x85", "U+0085"), ("\u2029", "U+2029")]:
+    evs2 = [(0, Event(msg="a")), (1, Event(msg=f"line one{ch}line two")), (2, Event(msg="c"))]
+    got, calls, err = asyncio.run(run(evs2, []))
+    print(f"with server-side escape, payload with {nm}: delivered {[s for s,_ in got]} error={err} text-equal={got[1][1]['_data']['msg'] == f'line one{ch}line two'}")
